@@ -199,6 +199,8 @@ def hook_always(rng, out):
 
 
 def run(ctx, out):
+    import families as _fampb
+    out.evaluations += _fampb.positional_bounds_family(out, PROP)
     import families as _fam
     out.evaluations += _fam.construction_paths_family(out, PROP)
     import families, random as _random
